@@ -180,6 +180,12 @@ def run(ctx):
         for d in r2.disagreements:
             rep.disagree(d["corr"] + " (faulted run)", d["summary"], d["case"])
         sub_cov["C04"] = st4
+        # ONE WHOLE CALL (Opt.init + Full.step + Opt.finish, Props/C16Opt.lean) on the runs WITH injected fit failures that completed: the failures enter
+        # the model only through the oracle values the run observed afterwards; everything else - calls, counters, mesh, incumbent, returned point - is derived
+        subw = Ctx("C16", ctx.tier, ctx.seed)
+        subw.driver = ctx.driver
+        subw._pool = good
+        sub_cov["whole_run_model_on_faulted_runs"] = runlevel.whole_replay(subw, rep, plain_only=True, allow_fit_faults=True)
     rep.coverage = {
         "evaluations": stats["faulted_runs"], "distinct_nontrivial": stats["robust_retries"] + stats["init_retries"],
         "rule": "one evaluation = one real optimize() run with LinAlgError injected into GP.fit at a schedule of invocation indices (single, 2-4 consecutive, scattered; every index in the thorough tier) in deterministic and noisy modes; "
